@@ -59,3 +59,61 @@ for n in miss:
     print(f'   {q}')
 if '--json' in sys.argv:
     json.dump({'defined': len(alldefs), 'entered': len(set(alldefs) & named), 'never_entered': miss}, open(os.path.join(HERE, 'reach.json'), 'w'), indent=1)
+
+# ---- line level: statements inside functions that WERE entered but that no workload ever executed (branches never taken) ----
+if '--lines' in sys.argv:
+    def func_lines(path):
+        """executable lines of every function code object (module and class bodies run at import and are left out)"""
+        out = {}
+        top = compile(open(path).read(), path, 'exec')
+
+        def walk(code, qual, is_func):
+            if is_func:
+                ls = {ln for _, _, ln in code.co_lines() if ln is not None and ln != code.co_firstlineno}
+                out[(qual, code.co_firstlineno)] = ls
+            for c in code.co_consts:
+                if hasattr(c, 'co_code'):
+                    walk(c, c.co_qualname, not c.co_name.startswith('<') or c.co_name in ('<lambda>',))
+        walk(top, '', False)
+        return out
+
+    def expand(r):
+        s = set()
+        for part in r.split(','):
+            if part:
+                a, _, b = part.partition('-')
+                s.update(range(int(a), int(b or a) + 1))
+        return s
+    executed = {}
+    for f in sorted(glob.glob(os.path.join(evdir, 'C*.json'))):
+        for rel, r in json.load(open(f)).get('coverage', {}).get('repo_lines_executed', {}).get('by_file', {}).items():
+            executed.setdefault(rel, set()).update(expand(r))
+    print('\n\n=== lines inside entered functions that no check executed ===')
+    tot = hit = 0
+    report = {}
+    for root, _, files in os.walk(os.path.join(src, 'CircuitCalculator')):
+        for f in sorted(files):
+            if not f.endswith('.py'):
+                continue
+            p = os.path.join(root, f)
+            rel = os.path.relpath(p, src)
+            text = open(p).read().split('\n')
+            ex = executed.get(rel, set())
+            for (qual, first), ls in sorted(func_lines(p).items(), key=lambda kv: kv[0][1]):
+                if f'{rel}::{qual}' not in named and '<lambda>' not in qual:
+                    continue                                  # never entered at all: listed above
+                if not (ls & ex):
+                    continue
+                tot += len(ls); hit += len(ls & ex)
+                for ln in sorted(ls - ex):
+                    report.setdefault(rel, []).append((ln, qual, text[ln - 1].strip()[:110]))
+    for rel, rows in sorted(report.items()):
+        print(f'\n{rel}')
+        for ln, qual, txt in rows:
+            print(f'   {ln:4d}  [{qual}]  {txt}')
+    print(f'\n{hit} of {tot} executable lines inside entered functions were executed by at least one check')
+    if '--json' in sys.argv:
+        d = json.load(open(os.path.join(HERE, 'reach.json')))
+        d['lines_in_entered_functions'] = tot; d['lines_executed'] = hit
+        d['lines_never_executed'] = {rel: [[ln, q, t] for ln, q, t in rows] for rel, rows in sorted(report.items())}
+        json.dump(d, open(os.path.join(HERE, 'reach.json'), 'w'), indent=1)
